@@ -1065,7 +1065,44 @@ func (fr *frame) loopVarEnvAt(h *ssa.BasicBlock, edgeFrom *ssa.BasicBlock, at *s
 			env[n] = fr.get(v)
 		}
 	}
+	// locals that live in a heap cell (captured by a function literal): the name denotes the cell's content
+	for n := range want {
+		if _, ok := env[n]; ok {
+			continue
+		}
+		if a := fr.findCellLocal(n); a != nil {
+			if av, bound := fr.vals[a]; bound && av.fp == nil && len(av.ts) == 1 {
+				env[n] = Val{ts: av.ts, cellOf: derefType(a.Type())}
+			}
+		}
+	}
 	return env
+}
+
+// findCellLocal: the allocation of the source variable `name` when the variable is address-taken (its DebugRefs are
+// address references), nil otherwise or when two different cells carry the name.
+func (fr *frame) findCellLocal(name string) *ssa.Alloc {
+	var found *ssa.Alloc
+	for _, blk := range fr.fn.Blocks {
+		for _, in := range blk.Instrs {
+			d, ok := in.(*ssa.DebugRef)
+			if !ok || !d.IsAddr {
+				continue
+			}
+			if id := d.Object(); id == nil || id.Name() != name {
+				continue
+			}
+			a, isAlloc := d.X.(*ssa.Alloc)
+			if !isAlloc {
+				continue
+			}
+			if found != nil && found != a {
+				return nil
+			}
+			found = a
+		}
+	}
+	return found
 }
 
 func (fr *frame) findLocalIn(b *ssa.BasicBlock, name string, inclusive bool) ssa.Value {
